@@ -696,7 +696,12 @@ impl CursorSink for TTYCellWriter<&mut TerminalWriter<'_>> {
 
 /// write the chunks one `write` call each, retrying the unaccepted tail (the `Write` contract)
 fn drive<S: CursorSink>(sink: &mut S, chunks: &[&[u8]], height: usize, run: &mut ChunkRun) {
-    for chunk in chunks.iter() {
+    for (ordinal, chunk) in chunks.iter().enumerate() {
+        // `flush()` between two write calls is part of the `Write` interface (`BufWriter`, `writeln!`
+        // loops call it); it must not change what the bytes mean
+        if ordinal % 2 == 1 {
+            let _ = sink.flush();
+        }
         let mut buf: &[u8] = chunk;
         let mut guard = 0usize;
         while !buf.is_empty() {
@@ -1392,6 +1397,58 @@ fn check_layout(case: &LayoutCase, ctx: &mut Ctx) -> Result<(), Fail> {
                 );
             }
         }
+    }
+
+    // --- the same characters as a `str` / `String` view (these always wrap): the size and the cells
+    //     must be those of the `Text` view that was just judged
+    if case.wraps && case.items.iter().all(|item| matches!(item, Item::Ch(_))) {
+        let string: String = case
+            .items
+            .iter()
+            .map(|item| match item {
+                Item::Ch(c) => *c,
+                _ => unreachable!(),
+            })
+            .collect();
+        let as_string = string.len() % 2 == 0;
+        let ct = BoxConstraint::loose(Size::new(BIG, width));
+        let mut store2 = ViewLayoutStore::new();
+        let layout2 = if as_string {
+            string.layout_new(&vctx, ct, &mut store2)
+        } else {
+            (&*string).layout_new(&vctx, ct, &mut store2)
+        }
+        .map_err(|e| Fail::new("layout:layout-error", format!("str::layout failed: {e}")))?;
+        ensure!(
+            layout2.size() == size,
+            "layout:str-view-size-differs",
+            "the {} view of {:?} reports {:?}, the Text view of the same characters {:?} (max width {width})",
+            if as_string { "String" } else { "&str" },
+            string,
+            layout2.size(),
+            size
+        );
+        let mut surf2: SurfaceOwned<Cell> = SurfaceOwned::new(size);
+        if as_string {
+            string.render(&vctx, surf2.as_mut(), layout2.view())
+        } else {
+            (&*string).render(&vctx, surf2.as_mut(), layout2.view())
+        }
+        .map_err(|e| Fail::new("layout:render-error", format!("str::render failed: {e}")))?;
+        for row in 0..size.height {
+            for col in 0..size.width {
+                let pos = Position::new(row, col);
+                let (a, b) = (surf.get(pos).map(|c| c.kind()), surf2.get(pos).map(|c| c.kind()));
+                ensure!(
+                    a == b,
+                    "layout:str-view-cells-differ",
+                    "cell ({row},{col}): Text view wrote {a:?}, the {} view of {:?} wrote {b:?}",
+                    if as_string { "String" } else { "&str" },
+                    string
+                );
+            }
+        }
+        ctx.feat("layout.str-view-compared");
     }
 
     // --- features
